@@ -4,6 +4,7 @@ import (
 	"fmt"
 	"sort"
 	"strings"
+	"syscall"
 	"testing"
 	"time"
 
@@ -137,6 +138,7 @@ type storeCtx struct {
 	srv    *apiServer // long-lived (its caches survive across operations)
 	marker int
 	killed func() bool
+	unlinkFaults *int // injected failures of the server's unlink of history records so far (nil: none are injected)
 }
 
 func (h *storeCtx) viol(clause, disc, format string, a ...any) {
@@ -271,6 +273,10 @@ func (h *storeCtx) applyOp(i int, op storeOp) bool {
 		}
 	case "delete":
 		var r apiResp
+		faultsBefore := 0
+		if h.unlinkFaults != nil {
+			faultsBefore = *h.unlinkFaults
+		}
 		h.server(op.Via, func(s *apiServer) { r = s.delete(a) })
 		if h.killed() {
 			return true
@@ -286,6 +292,20 @@ func (h *storeCtx) applyOp(i int, op storeOp) bool {
 				bump(h.out, "delete_with_history")
 			}
 			if !r.ok() {
+				if h.unlinkFaults != nil && *h.unlinkFaults > faultsBefore {
+					// a record could not be removed: the delete is refused, the definition stays, and of the
+					// history whatever could be removed is gone (learn which)
+					bump(h.out, "delete_refused_after_unlink_error")
+					var left []*sRun
+					fresh := jsondb.New(dataDir, true)
+					for _, sr := range h.m.hist[a] {
+						if _, err := fresh.FindByRequestID(dagFile(a), sr.id); err == nil {
+							left = append(left, sr)
+						}
+					}
+					h.m.hist[a] = left
+					return true
+				}
 				h.viol("delete-failed", "response", "%s: delete of %q failed: %d %s", tag, a, r.Code, r.Msg)
 				return true
 			}
@@ -489,10 +509,33 @@ func storesim(t *testing.T, tp *simrt.Tape, opts RunOpts) *Outcome {
 		maxOps = 40
 	}
 	sc.Ops = genStoreOps(tp, nn, maxOps)
+	// fault "unlink_error": in a quarter of the sequences half of the server's removals of history records
+	// fail (I/O error, immutable file): a delete that could not remove everything must say so and keep the
+	// definition, not report success over what it left behind
+	var unlinkFaults *int
+	if chance(tp, 1, 3) {
+		unlinkFaults = new(int)
+		// motif: a DAG with several recorded runs is deleted (and its name taken again)
+		x := tp.Draw(simrt.SGen, nn)
+		pre := []storeOp{{Kind: "create", A: x}}
+		for i := 2 + tp.Draw(simrt.SGen, 3); i > 0; i-- {
+			pre = append(pre, storeOp{Kind: "run", A: x, Text: tp.Draw(simrt.SGen, 2)}, storeOp{Kind: "sleep"})
+		}
+		pre = append(pre, storeOp{Kind: "delete", A: x, Via: tp.Draw(simrt.SGen, 2)}, storeOp{Kind: "create", A: x}, storeOp{Kind: "delete", A: x})
+		sc.Ops = append(pre, sc.Ops...)
+		cfg.FaultPlan = func(op *simrt.OpInfo) simrt.Fault {
+			if op.Kind != "unlink" || op.Proc.Name != "server" || !strings.HasSuffix(op.Path, ".dat") || !tp.Chance(simrt.SFault, 1, 2) {
+				return simrt.Fault{}
+			}
+			*unlinkFaults++
+			op.Proc.W.CountFault("unlink_error")
+			return simrt.Fault{Kind: simrt.FErr, Errno: pick2(tp, syscall.EIO, syscall.EPERM)}
+		}
+	}
 	res := simrt.Run(t, cfg, func(w *simrt.World) {
 		seedIDs(tp)
 		setupDirs(w)
-		h := &storeCtx{w: w, sc: sc, m: &storeModel{text: map[string]string{}, hist: map[string][]*sRun{}}, out: out, killed: func() bool { return false }}
+		h := &storeCtx{w: w, sc: sc, m: &storeModel{text: map[string]string{}, hist: map[string][]*sRun{}}, out: out, killed: func() bool { return false }, unlinkFaults: unlinkFaults}
 		inProc(w, "server", func() {
 			h.srv = newAPIServer()
 			for i, op := range sc.Ops {
